@@ -75,6 +75,8 @@ def gen_txns(rnd):
             if 2024 in years and rnd.random() < .04:
                 d = datetime(2024, 2, rnd.choice([29, 29, 15, 28]))
             amt = round(rnd.choice([1, 1, 1, 1, -1]) * rnd.choice([5, 9.99, 25, 100, 250.5, 1200, 33.33, 50]), 2)
+            if rnd.random() < .08:
+                amt = rnd.choice([19.996, 0.004, 99.995, 100.004, 49.9951, 33.335])      # (statements in currencies with three decimals, fuel prices, converted amounts)
             tags = list(base) + special + (['extra'] if rnd.random() < .1 else [])
             if special and late_special and k == 0 and n > 1:
                 tags = list(base)            # the special tag comes from a rule that only SOME payments match (here: not the first one)
@@ -582,6 +584,12 @@ def witness_periods(rec):
                  {'name': 'Not decomposed', 'locals': [], 'filter': 'category != "cafe\u0301"'}, {'name': 'Tagged', 'locals': [], 'filter': '"cafe\u0301" in tags'},
                  {'name': pad, 'locals': [], 'filter': 'total > 50'}]
         judge(rec, rnd, nfd, [], views)
+    # amounts with more than two decimals near a threshold: the views see the payments as the statements state them
+    fine = [tx('Fuel', 2025, m, 3, 19.996) for m in (1, 2, 3)] + [tx('Dust', 2025, 1, 9, 0.004), tx('Dust', 2025, 2, 9, 0.004), tx('Edge', 2025, 4, 1, 99.995), tx('Round', 2025, 4, 2, 100.0)]
+    views = [{'name': 'Under twenty each', 'locals': [], 'filter': 'max(payments) < 20'}, {'name': 'Under sixty', 'locals': [], 'filter': 'total < 60'},
+             {'name': 'Has spend', 'locals': [], 'filter': 'total > 0.01'}, {'name': 'Hundred', 'locals': [], 'filter': 'total >= 100'},
+             {'name': 'Avg', 'locals': [('a', 'avg(payments)')], 'filter': 'a < 20 and sum(payments) < 59.99'}, {'name': 'P', 'locals': [], 'filter': 'true'}]
+    judge(rec, rnd, fine, [], views)
     rec.count('fixed_period_scenarios', 2)
 
 
